@@ -205,7 +205,8 @@ static void smartgen(vh::Rng & r, vh::Out & out)
   Eigen::Matrix3d E0 = Eigen::Matrix3d::Zero(), E1 = E0, E2 = E0; E0(0, 0) = 1; E1(1, 1) = 1; E2(2, 2) = 1;
   Eigen::Matrix3d ex[3] = {Rz(c) * Ry(b) * dRx(a), Rz(c) * dRy(b) * Rx(a), dRz(c) * Ry(b) * Rx(a)};
   Eigen::Matrix3d co[3] = {Rz(c) * Ry(b) * (dRx(a) + E0), Rz(c) * (dRy(b) + E1) * Rx(a), (dRz(c) + E2) * Ry(b) * Rx(a)};
-  const Eigen::Matrix3d * got[3] = {&sr.dRdAngleAroundXAxis(), &sr.dRdAngleAroundYAxis(), &sr.dRdAngleAroundZAxis()};
+  const Eigen::Matrix3d gotM[3] = {sr.dRdAngleAroundXAxis(), sr.dRdAngleAroundYAxis(), sr.dRdAngleAroundZAxis()};
+  const Eigen::Matrix3d * got[3] = {&gotM[0], &gotM[1], &gotM[2]};
   Eigen::Vector3d T(u() * 10, u() * 10, u() * 10);
   Eigen::Matrix3d dRT = sr.dRTdAngles(T);
   double re = 0, rc = 0;
